@@ -11,7 +11,10 @@ Ent(c, u, e) == [c |-> c, u |-> u, e |-> e]
 Quantities == [simple |-> <<Ent("length", "m", 1)>>, derived |-> <<Ent("length", "m", 1), Ent("time", "s", -1)>>,
                squared |-> <<Ent("length", "cm", 2)>>,
                pure |-> <<Ent("dimensionless", "-", 1)>>,
-               captioned |-> <<Ent("Unknown", "<unknown>", 1)>>]   \* the 'Unknown' quantity type with a caption: "keeps x's quantity" includes the caption          \* a value whose own unit is the dimensionless '-' keeps it
+               captioned |-> <<Ent("Unknown", "<unknown>", 1)>>,
+               \* one quantity type held in two units (only an ordered-map request builds it): the eight quantity-keeping operators keep the
+               \* map AND the amount's reading in it (no unit matching inside x may rescale the values); k / x is left to QAlg (Raw seeds)
+               twounit |-> <<Ent("length", "m", 1), Ent("diameter", "cm", 1)>>]   \* the 'Unknown' quantity type with a caption: "keeps x's quantity" includes the caption          \* a value whose own unit is the dimensionless '-' keeps it
 Recip(q) == [i \in 1..Len(q) |-> [q[i] EXCEPT !.e = -q[i].e]]
 Ks == {R(3), <<1, 2>>, R(-2), Zero}
 Vs == {R(2), R(4), R(-3), <<5, 2>>}
@@ -29,7 +32,8 @@ Value(op, k, v) ==
 ResultQ(op, q) == IF op \in {"k/x", "k//x"} THEN Recip(q) ELSE q
 Rows == { [qsel |-> s, op |-> op, k |-> k, v |-> v, rq |-> ResultQ(op, Quantities[s]), rv |-> Value(op, k, v)] :
           s \in DOMAIN Quantities, op \in OpsAll, k \in Ks, v \in { w \in Vs : TRUE } }
-ASSUME JsonSerialize(IOEnv.OUT_FILE, [rows |-> { r \in Rows : Defined(r.op, r.k, r.v) }, quantities |-> Quantities])
+InScope(r) == ~(r.qsel = "twounit" /\ r.op \in {"k/x", "k//x"})
+ASSUME JsonSerialize(IOEnv.OUT_FILE, [rows |-> { r \in Rows : Defined(r.op, r.k, r.v) /\ InScope(r) }, quantities |-> Quantities])
 VARIABLE x
 Init == x = 0
 Next == UNCHANGED x
